@@ -159,9 +159,18 @@ def sample_eval(seed: int, count: int):
     rng = random.Random(seed)
     script, expect, cases = [], [], []
     viols = []
+    prev = None
     for _ in range(count):
         tn = rng.choice(list(TYPE_DECK))
         hole, board = gen_cards(rng, tn)
+        if prev is not None and rng.random() < 0.25:
+            # a relative of the previous input: the same cards dealt the other way round (hole and board
+            # cards exchanged, sizes kept), the same type - evaluations must not depend on one another
+            tn, ph, pb = prev
+            cs = [c for c in ph + pb]
+            rng.shuffle(cs)
+            hole, board = cs[:len(ph)], cs[len(ph):]
+        prev = (tn, list(hole), list(board))
         line, h = impl_eval(tn, hole, board)
         script.append(f'eval {tn} {cards_text(hole)} {cards_text(board)}')
         expect.append(line)
@@ -212,6 +221,37 @@ def sample_hands(seed: int, count: int):
             cs = rng.sample(pool, min(k, len(pool)))
             if mode == 'dup' and cs:
                 cs[-1] = cs[0]
+            if _j == 1 and pair and pair[0] and rng.random() < 0.3:
+                # a relative of the first hand: ties and near-ties (the same ranks in other suits - all of one
+                # suit where possible -, the same cards in another order, one card changed)
+                rel = rng.choice(['resuit', 'suited', 'permute', 'one_card'])
+                base = list(pair[0])
+                by = {}
+                for c in deck:
+                    by.setdefault(c.rank, []).append(c)
+                if rel == 'permute':
+                    cs = base[:]
+                    rng.shuffle(cs)
+                elif rel == 'one_card':
+                    cs = base[:]
+                    others = [c for c in deck if c not in cs]
+                    if others:
+                        cs[rng.randrange(len(cs))] = rng.choice(others)
+                else:
+                    suits = sorted({c.suit for c in deck}, key=str)
+                    one = rng.choice(suits)
+                    cs, used = [], set()
+                    for c in base:
+                        cands = [d for d in by.get(c.rank, []) if d not in used]
+                        if rel == 'suited':
+                            pref = [d for d in cands if d.suit == one]
+                            cands = pref or cands
+                        if not cands:
+                            cs = base[:]
+                            break
+                        d = rng.choice(cands)
+                        used.add(d)
+                        cs.append(d)
             pair.append(cs)
         res = []
         for cs in pair:
